@@ -132,8 +132,20 @@ def nontrivial(c, ir, mr):
     return isinstance(mr, dict) and "ok" in mr and mr["ok"][0] != "none"
 
 
+def close_enough(ir, cm):
+    """raw_frequency: equal up to floating-point rounding (a different but equivalent order of operations is not a violation)."""
+    try:
+        a, b = ir["ok"], cm["ok"]
+        if a[0] != "up" or b[0] != "up" or a[1:3] != b[1:3] or a[4:] != b[4:]:
+            return False
+        x, y = float.fromhex(a[3]), float.fromhex(b[3])
+        return abs(x - y) <= 1e-12 * max(1.0, abs(y))
+    except Exception:
+        return False
+
+
 def judge(c, ir, mr):
-    if ir == canon_model(mr):
+    if ir == canon_model(mr) or close_enough(ir, canon_model(mr)):
         return None
     return {"kind": "uptime verdict differs from the 32-bit tick-rate rule", "why": "impl %s, verified model %s" % (ir, canon_model(mr)),
             "judged_by": "C13_gate / C13_forward / C13_backward / C13_round_table"}
